@@ -99,6 +99,14 @@ inline int unlock(pthread_mutex_t *m) {
     return r;
 }
 
+// harness-level events (a thread waits until another one has reached a given place): modelled as blocking, like a mutex
+inline void set_flag(volatile int *f) { __atomic_store_n(f, 1, __ATOMIC_SEQ_CST); if (!managed()) return; Core &c = C(); for (int i = 0; i < c.n; i++) if (c.th[i]->state == 2 && c.th[i]->waiting == (const void *)f) { c.th[i]->state = 1; c.th[i]->waiting = nullptr; } point("set_flag"); }
+inline void wait_flag(volatile int *f) {
+    if (!managed()) { while (!__atomic_load_n(f, __ATOMIC_SEQ_CST)) sched_yield(); return; }
+    Core &c = C(); Th *me = c.th[t_id]; point("wait_flag");
+    while (!__atomic_load_n(f, __ATOMIC_SEQ_CST)) { me->state = 2; me->waiting = (const void *)f; int nx = choose("blocked_on_flag", false); if (nx < 0) { c.tr.deadlock = true; sem_post(&c.done); sem_wait(&me->go); } handoff(nx); }
+}
+
 struct Finisher { ~Finisher() { // runs after every library thread_local destructor of this thread
     if (!managed()) return; Core &c = C(); Th *me = c.th[t_id];
     if (c.record_events) c.tr.events.push_back("T" + std::to_string(t_id) + ":exit");
